@@ -53,7 +53,11 @@ func main() {
 		case "selftest":
 			code = pc.CmdSelftest(os.Args[2:], verifDir())
 		case "grammar":
-			prog := pc.Load("/repo")
+			dir := "/repo"
+			if d := os.Getenv("PQL_REPO"); d != "" {
+				dir = d
+			}
+			prog := pc.Load(dir)
 			fmt.Print(prog.Grammar().Dump())
 		case "list":
 			for _, id := range pc.PropertyIDs() {
